@@ -53,3 +53,5 @@ Definition copy_procs (m : cnode) (u : N) : cnode * N :=
 
 Definition kapply_ops := apply_ops mk_child N build copy_procs.
 Definition kbook_apply := book_apply.
+Definition kengine_apply := engine_apply.
+Definition kbook_apply_pinned := book_apply_pinned.
